@@ -1605,6 +1605,12 @@ func (x *Exec) indexAddr(in *ssa.IndexAddr, fr *frame, h *Heap) bool {
 	if base.k == 'P' && base.obj != 0 {
 		base = AV{k: 'L', obj: base.obj, tri: 2}
 	}
+	// a package-level array that is a constant table
+	if base.k == 'P' && base.obj == 0 && strings.HasPrefix(base.what, "global ") {
+		if v, ok := x.loadGlobal(strings.TrimPrefix(base.what, "global "), h); ok && v.k == 'L' {
+			base = v
+		}
+	}
 	if base.k != 'L' {
 		fr.vals[in] = AV{k: 'A', idx: -3, what: "element of opaque"}
 		return true
